@@ -107,7 +107,9 @@ func r14a(c *an.Ctx) {
 	if fn := c.MustFn("common/gera", "FlattenStack"); fn != nil {
 		c.Subject()
 		ok := false
-		for _, ci := range an.Calls(fn, func(n string, ci ssa.CallInstruction) bool { return an.MethodName(ci.Common()) == "Wrap" && an.InLoop(ci.Block()) }) {
+		for _, ci := range an.Calls(fn, func(n string, ci ssa.CallInstruction) bool {
+			return an.MethodName(ci.Common()) == "Wrap" && an.InLoop(ci.Block())
+		}) {
 			args := an.Args(ci.Common())
 			// receiver: MakeMapWithMap(flattening of the current element); argument: the accumulator (a phi / cell)
 			if call, isCall := an.Strip(args[0]).(*ssa.Call); isCall && strings.Contains(an.CalleeName(&call.Call), "gera.MakeMapWithMap") {
@@ -153,7 +155,9 @@ func r14a(c *an.Ctx) {
 		}
 		n := 0
 		for _, f := range an.WithAnon(fn) {
-			for _, ci := range an.Calls(f, func(nm string, ci ssa.CallInstruction) bool { return an.MethodName(ci.Common()) == "WrappedAndFlattened" }) {
+			for _, ci := range an.Calls(f, func(nm string, ci ssa.CallInstruction) bool {
+				return an.MethodName(ci.Common()) == "WrappedAndFlattened"
+			}) {
 				n++
 				c.Subject()
 				args := an.Args(ci.Common())
